@@ -21,10 +21,12 @@ type c07Params struct {
 	Glob     bool  // same basename in different directories through one glob
 	LongLine int   // if >0, line l of file 0 has this many bytes + 10000*(l-1)
 	Kind     string
+	// NoFinalNL: the last line of every odd-numbered file has no trailing newline
+	NoFinalNL bool
 }
 
 func (p c07Params) String() string {
-	return fmt.Sprintf("%s servers=%d files=%v glob=%v longline=%d", p.Kind, p.Servers, p.Files, p.Glob, p.LongLine)
+	return fmt.Sprintf("%s servers=%d files=%v glob=%v longline=%d nofinalnl=%v", p.Kind, p.Servers, p.Files, p.Glob, p.LongLine, p.NoFinalNL)
 }
 
 func init() {
@@ -50,12 +52,15 @@ func c07Line(p c07Params, f, l int) string {
 }
 
 func c07Setup(p c07Params) (what string, ids []string) {
-	dir := strings.NewReplacer(" ", "_", "[", "", "]", "").Replace(fmt.Sprintf("c07/%v-%v-%d", p.Files, p.Glob, p.LongLine))
+	dir := strings.NewReplacer(" ", "_", "[", "", "]", "").Replace(fmt.Sprintf("c07/%v-%v-%d-%v", p.Files, p.Glob, p.LongLine, p.NoFinalNL))
 	var paths []string
 	for f, n := range p.Files {
 		var sb strings.Builder
 		for l := 1; l <= n; l++ {
-			sb.WriteString(c07Line(p, f, l) + "\n")
+			sb.WriteString(c07Line(p, f, l))
+			if !(p.NoFinalNL && f%2 == 1 && l == n) {
+				sb.WriteString("\n")
+			}
 		}
 		if p.Glob {
 			paths = append(paths, WriteScratch(fmt.Sprintf("%s/d%d/app.log", dir, f), sb.String()))
@@ -232,6 +237,7 @@ func c07ParamSets(tier string) (ps []c07Params, d int) {
 			{Kind: "cat", Servers: 2, Files: []int{1, 1}, Glob: true},
 			{Kind: "cat", Servers: 1, Files: []int{2, 2}, Glob: true},
 			{Kind: "cat", Servers: 2, Files: []int{2}, LongLine: 40000},
+			{Kind: "cat", Servers: 1, Files: []int{2, 2, 2}, Glob: true, NoFinalNL: true},
 		}, 1
 	}
 	for _, srv := range []int{1, 2, 3} {
